@@ -394,6 +394,8 @@ fn reverse_incremental_search<H: Helper, I: History>(
     let mut cmd;
     // Display the reverse-i-search prompt and process chars
     loop {
+        // the entry on display: a repeated search that fails must not move away from it
+        let shown_idx = history_idx;
         let prompt = if success {
             format!("(reverse-i-search)`{search_buf}': ")
         } else {
@@ -453,7 +455,10 @@ fn reverse_incremental_search<H: Helper, I: History>(
                 s.line.update(&sr.entry, sr.pos, &mut s.changes);
                 true
             }
-            _ => false,
+            _ => {
+                history_idx = shown_idx;
+                false
+            }
         };
     }
     s.changes.end();
